@@ -315,6 +315,10 @@ func extractOption(nodes map[string]*chanCall, opts ...Option) (map[string][]any
 				continue
 			}
 			for name, c := range nodes {
+				if c.action.isPassthrough {
+					// a passthrough node takes no option
+					continue
+				}
 				if c.action.optionType == nil {
 					// subgraph
 					optMap[name] = append(optMap[name], opt)
@@ -341,6 +345,10 @@ func extractOption(nodes map[string]*chanCall, opts ...Option) (map[string][]any
 					// node callback also won't be passed
 					continue
 				}
+				if curNode.action.isPassthrough {
+					return nil, fmt.Errorf("option type[%s] is designated to the passthrough node[%s], which takes no option",
+						reflect.TypeOf(opt.options[0]).String(), path)
+				}
 				if curNode.action.optionType == nil {
 					nOpt := opt.deepCopy()
 					nOpt.paths = []*NodePath{}
@@ -354,7 +362,7 @@ func extractOption(nodes map[string]*chanCall, opts ...Option) (map[string][]any
 					optMap[curNodeKey] = append(optMap[curNodeKey], opt.options...)
 				}
 			} else {
-				if curNode.action.optionType != nil {
+				if curNode.action.optionType != nil || curNode.action.isPassthrough {
 					// component
 					return nil, fmt.Errorf("cannot designate sub path of a component, path:%s", path)
 				}
